@@ -169,7 +169,7 @@ class SrtContext:
     # paragraphs shorter than the millisecond resolution of the time codes cannot be represented
     self._paragraphs = [
       p for p in self._paragraphs
-      if p.get_end() is None or p.get_end().to_seconds() > p.get_begin().to_seconds()
+      if p.get_end() is None or p.get_end().to_milliseconds() > p.get_begin().to_milliseconds()
     ]
 
     if self._paragraphs and self._paragraphs[-1].get_end() is None:
@@ -181,7 +181,7 @@ class SrtContext:
       else:
         # set default end time code
         LOGGER.warning("Set a default end value to paragraph (begin + 10s).")
-        self._paragraphs[-1].set_end(self._paragraphs[-1].get_begin().to_seconds() + 10.0)
+        self._paragraphs[-1].set_end(Fraction(self._paragraphs[-1].get_begin().to_milliseconds(), 1000) + 10)
 
   def __str__(self) -> str:
     return "\n".join(p.to_string(id + 1) for id, p in enumerate(self._paragraphs))
